@@ -327,6 +327,26 @@ def run(run):
                 # the captured cell is the key of the same map entry (arg2.0) and the fragments are its value (arg2.1)
                 key_ok = key_ok or mentions(r, lambda z: z[0] == "agg" and str(z[1]).startswith("closure:") and any(strip(v) == ("param", 2, ("0",)) for _, v in z[3])) and \
                     mentions(r, lambda z: z[0] == "param" and z[1] == 2 and z[2][:1] == ("1",))
+        if not (ok and key_ok):
+            # the same written as two nested `for` loops with a push
+            aex = Expr(prog, afs)
+            for _, t in prog.calls(afs):
+                if not Program.callee_name(t).endswith("Vec::<T, A>::push"):
+                    continue
+                v = strip(aex.operand(t["args"][1]))
+                if not (v[0] == "call" and v[1].endswith("FragmentSpan::absolute_position") and len(v[2]) == 2):
+                    continue
+                fr, cell = strip(v[2][0]), strip(v[2][1])
+                outer = []
+                mentions(cell, lambda z: z[0] == "call" and z[1].endswith("Iterator>::next") and outer.append(z) and False)
+                digits = lambda e: tuple(f for f in (e[2] if e[0] == "field" else ()) if str(f).isdigit())
+                if cell[0] == "field" and outer and digits(cell)[-2:] == ("0", "0"):
+                    ob = outer[0][3]
+                    same_entry = mentions(fr, lambda z: z[0] == "field" and digits(z)[-2:] == ("0", "1") and
+                                          mentions(z, lambda y: y[0] == "call" and y[1].endswith("Iterator>::next") and len(y) > 3 and y[3] == ob))
+                    over_map = mentions(cell, lambda z: z[0] == "call" and re.search(r"BTreeMap<.*>::iter$|::iter$|into_iter$", z[1]) and mentions(z, lambda y: y == ("param", 1, ())))
+                    if same_entry and over_map:
+                        ok = key_ok = True
         if ok and key_ok:
             run.ok("C06.P1", "fragments of a cell are placed at that cell's own position", where(prog.bodies[afs]))
         else:
